@@ -30,7 +30,7 @@ X86_ADDR = ["rax", "rbx", "rcx", "rsi", "rbp", "r8", "r9"]
 X86_FLAGS = ["CF", "ZF", "SF", "OF"]
 A64_FLAGS = ["N", "Z", "C", "V"]
 X86_KINDS = ["gpr", "gpr", "gpr", "xmm", "ymm", "zmm", "imm"]
-A64_KINDS = ["x", "x", "w", "d", "q", "s", "v2d", "imm"]
+A64_KINDS = ["x", "x", "w", "d", "q", "s", "v2d", "zd", "imm"]
 
 
 def x86_fam(name):
@@ -61,7 +61,7 @@ def forms_strategy(draw, isa, max_forms=6, no_rmw_mem=False):
                 pos = draw(st.integers(0, nops - 1))
             else:
                 pos = nops - 1  # AArch64: memory operand last
-            if memk < 2 and kinds[pos] not in ("imm",) and not (isa == "aarch64" and kinds[pos] == "v2d"):
+            if memk < 2 and kinds[pos] not in ("imm",) and not (isa == "aarch64" and kinds[pos] in ("v2d", "zd")):
                 composed = pos  # arch entry keeps the register kind, instruction may use memory there
                 if isa == "aarch64":
                     kinds[pos] = "x"
@@ -86,7 +86,7 @@ def forms_strategy(draw, isa, max_forms=6, no_rmw_mem=False):
             hidden = []
             for fl in draw(st.lists(st.sampled_from(flags), max_size=2, unique=True)):
                 hidden.append([fl, list(draw(st.sampled_from([[True, False], [False, True], [True, True]])))])
-            brk = (nops >= 2 and composed is None and all(k == kinds[0] and k in ("gpr", "xmm", "ymm", "x", "d")
+            brk = (nops >= 2 and composed is None and all(k == kinds[0] and k in ("gpr", "xmm", "ymm", "x", "d", "zd")
                                                           for k in kinds)
                    and draw(st.booleans()))
             isa_entry = {"roles": roles, "hidden": hidden, "brk": brk}
@@ -107,6 +107,8 @@ def _a64_reg(draw, kind):
         return ["r", kind, str(draw(st.integers(1, 5)))]
     if kind == "v2d":
         return ["r", "v", str(draw(st.integers(1, 3))), "2d"]
+    if kind == "zd":
+        return ["r", "z", str(draw(st.integers(1, 3))), "d"]
     return ["r", kind, str(draw(st.integers(1, 3)))]
 
 
@@ -250,6 +252,8 @@ def _x86_op(kind, role=None):
 def _a64_op(kind, role=None):
     if kind == "v2d":
         o = {"class": "register", "prefix": "v", "shape": "d"}
+    elif kind == "zd":
+        o = {"class": "register", "prefix": "z", "shape": "d"}
     elif kind in ("x", "w", "d", "q", "s"):
         o = {"class": "register", "prefix": kind}
     elif kind == "imm":
